@@ -217,6 +217,7 @@ Inductive lop :=
 | LAcceptHold (i : nat) (p : proto)   (* connect while the serve goroutine is held between the kernel's accept and wg.Add *)
 | LUpgrade (i : nat)          (* POP3 STLS in AUTHORIZATION state: +OK, then the TLS handshake on the same connection *)
 | LBusy (i : nat)             (* the client keeps session i busy (NOOP after NOOP) for a while *)
+| LAcceptFail (p : proto)     (* the accept loop's Accept returns a permanent (non-timeout) error: notify <- err; close; the loop exits *)
 | LPlain                      (* a client that fails the TLS handshake of a ForceTLS POP3 server *)
 | LGate                       (* the store's RemoveMessage now blocks … *)
 | LUngate.                    (* … until here *)
@@ -227,7 +228,7 @@ Inductive lobs :=
 | XOk                        (* POP3 +OK *)
 | XFinS (data : option nat) (quit : nat) (n : nat)
 | XFinP (ok : bool) (n : nat)
-| XDropped | XParked | XErr
+| XDropped | XParked | XErr | XNotified
 | XReturned | XBlocked | XJoined | XFine | XOther.
 
 Record world := mkW { wc : bool; ws : srv; wp : srv; wgate : bool;
@@ -402,6 +403,11 @@ Definition lstep (w : world) (o : lop) : world * lobs :=
           end
       | None => (w, XQ)
       end
+  | LAcceptFail p =>
+      (* the loop is gone (its own count released), nothing is accepted any more; the sessions are untouched and
+         Start keeps waiting for the cancellation. For Drain and for later accepts this is a dead listener. *)
+      let v := srv_of w p in
+      (set_srv w p (mkSrv (pr v) false (wg v) (ss v)), XNotified)
   | LGate => (mkW (wc w) (ws w) (wp w) true (wpend w) (wtls w), XDot)
   | LUngate =>
       let w0 := mkW (wc w) (ws w) (wp w) false (wpend w) (wtls w) in
@@ -472,7 +478,7 @@ Definition open_count (p : proto) (bs : list book) : nat :=
 
 Definition lobs_eqb (a b : lobs) : bool :=
   match a, b with
-  | XErr, XErr | XParked, XParked | XDropped, XDropped | XDot, XDot | XQ, XQ | XRefused, XRefused | XHeld, XHeld | XAccepted, XAccepted | XOk, XOk
+  | XNotified, XNotified | XErr, XErr | XParked, XParked | XDropped, XDropped | XDot, XDot | XQ, XQ | XRefused, XRefused | XHeld, XHeld | XAccepted, XAccepted | XOk, XOk
   | XReturned, XReturned | XBlocked, XBlocked | XJoined, XJoined | XFine, XFine => true
   | XCode x, XCode y => Nat.eqb x y
   | XFinS d q n, XFinS d' q' n' =>
@@ -591,6 +597,7 @@ Fixpoint loracle_go (all : list lop) (k : nat) (ops : list lop) (os : list lobs)
                           else next down bs
               | None => next down bs
               end
+          | LAcceptFail _ => if lobs_eqb x XNotified then next down bs else (LVSessionDisturbed k, os')
           | LGate | LUngate => next down bs
           | LDrain p =>
               if negb down then next down bs   (* Drain is only promised anything after shutdown was requested *)
